@@ -19,9 +19,9 @@ from props import c18_static as S
 
 PROP = "C18"
 LEVEL = "proof"
-GEN_UNITS = ["GenCpAls", "GenTuckerAls", "GenHosvd", "GenCpAprMu", "GenSolver", "GenHosvdFull"]     # wave 5: Props/C18W5.v states print-independence over the generated control-flow skeletons (tools/pyx2v_skel.py, owned by w5-skel, read-only)
-COQ_TARGETS = ["Props/C18.vo", "Props/C18Perm.vo", "Props/C18Rows.vo", "Props/C18W4.vo", "Props/C18W4H.vo", "Props/C18W4O.vo", "Props/C18W4S.vo", "Props/C18W5.vo", "Props/C18W5b.vo", "Props/C18W5c.vo", "Proofs/C18GenPrintExamples.vo", "Model/C18Cmp.vo", "Model/Harness.vo"]
-THEOREM_FILES = ["Props/C18.v", "Props/C18Perm.v", "Props/C18Rows.v", "Props/C18W4.v", "Props/C18W4H.v", "Props/C18W4O.v", "Props/C18W4S.v", "Props/C18W5.v", "Props/C18W5b.v", "Props/C18W5c.v"]
+GEN_UNITS = ["GenCpAls", "GenTuckerAls", "GenHosvd", "GenCpAprMu", "GenSolver", "GenHosvdFull", "GenCpAprPdnr", "GenCpAprPqnr"]     # wave 5: Props/C18W5.v states print-independence over the generated control-flow skeletons (tools/pyx2v_skel.py, owned by w5-skel, read-only)
+COQ_TARGETS = ["Props/C18.vo", "Props/C18Perm.vo", "Props/C18Rows.vo", "Props/C18W4.vo", "Props/C18W4H.vo", "Props/C18W4O.vo", "Props/C18W4S.vo", "Props/C18W5.vo", "Props/C18W5b.vo", "Props/C18W5c.vo", "Props/C18W8.vo", "Proofs/C18GenPrintExamples.vo", "Proofs/C18W8Examples.vo", "Model/C18Cmp.vo", "Model/Harness.vo"]
+THEOREM_FILES = ["Props/C18.v", "Props/C18Perm.v", "Props/C18Rows.v", "Props/C18W4.v", "Props/C18W4H.v", "Props/C18W4O.v", "Props/C18W4S.v", "Props/C18W5.v", "Props/C18W5b.v", "Props/C18W5c.v", "Props/C18W8.v"]
 COQ_IMPORTS = ("From Coq Require Import List ZArith Bool QArith Qcanon.\n"
                "From PV Require Import Base.Index Np.Array Model.Sparse Model.Repr Model.Harness Model.C18Cmp.\n")
 SHARD = 16          # quick tier (247 evaluated pairs): 16 shards = one round on 16 cores; ~1.3 s of library loading per shard
